@@ -9,7 +9,7 @@ Local Open Scope N_scope.
 (* ---------------------------------------------------------------------------------------- *)
 Definition hnext_ok (from : lstate) (r : hres) : Prop :=
   match r with
-  | HNext l _ => exists e, snd l = Some e /\ allowed (fst from) e = Some (fst l)
+  | HNext l _ _ => exists e, snd l = Some e /\ allowed (fst from) e = Some (fst l)
   | _ => True
   end.
 
@@ -17,6 +17,12 @@ Ltac break_match :=
   match goal with
   | |- context [match ?x with _ => _ end] => destruct x eqn:?
   | |- context [if ?x then _ else _] => destruct x eqn:?
+  end.
+
+Ltac break_match_hyp :=
+  match goal with
+  | H : context [match ?x with _ => _ end] |- _ => destruct x eqn:?
+  | H : context [if ?x then _ else _] |- _ => destruct x eqn:?
   end.
 
 Lemma handler_within_table_lemma cfg s sc t : hnext_ok (loc t) (handler cfg s sc t).
@@ -28,8 +34,675 @@ Proof.
 Qed.
 
 (* ---------------------------------------------------------------------------------------- *)
-(* rejection                                                                                *)
+(* association lists with in-place update                                                   *)
 (* ---------------------------------------------------------------------------------------- *)
+Lemma Neqb_refl k : N.eqb k k = true. Proof. apply N.eqb_refl. Qed.
+
+Section Upd.
+Variable V : Type.
+Implicit Types m : list (N * V).
+
+Lemma upd_keys m k v : map fst (upd m k v) = map fst m.
+Proof.
+  induction m as [|[k' v'] r IH]; cbn [upd map fst]; auto.
+  destruct (N.eqb k' k); cbn [map fst]; congruence.
+Qed.
+
+Lemma get_upd m k v j :
+  get N.eqb (upd m k v) j =
+  if N.eqb j k then match get N.eqb m k with Some _ => Some v | None => None end else get N.eqb m j.
+Proof.
+  destruct (N.eqb_spec j k) as [E|Hj].
+  - rewrite E. clear E j.
+    induction m as [|[k' v'] r IH]; cbn [upd get]; [reflexivity|].
+    destruct (N.eqb_spec k' k) as [E|Hk]; cbn [get].
+    + rewrite E, N.eqb_refl. reflexivity.
+    + destruct (N.eqb_spec k' k); [congruence|]. exact IH.
+  - induction m as [|[k' v'] r IH]; cbn [upd get]; [reflexivity|].
+    destruct (N.eqb_spec k' k) as [E|Hk]; cbn [get].
+    + rewrite E. destruct (N.eqb_spec k j); [congruence|reflexivity].
+    + destruct (N.eqb_spec k' j); auto.
+Qed.
+
+Lemma get_upd_same m k v v0 : get N.eqb m k = Some v0 -> get N.eqb (upd m k v) k = Some v.
+Proof. intros H. rewrite get_upd, N.eqb_refl, H. reflexivity. Qed.
+
+Lemma get_upd_other m k v j : j <> k -> get N.eqb (upd m k v) j = get N.eqb m j.
+Proof. intros H. rewrite get_upd. apply N.eqb_neq in H. rewrite H. reflexivity. Qed.
+
+Lemma upd_same m k v : get N.eqb m k = Some v -> upd m k v = m.
+Proof.
+  induction m as [|[k' v'] r IH]; cbn [upd get]; auto.
+  destruct (N.eqb k' k) eqn:E; intros H.
+  - apply N.eqb_eq in E. congruence.
+  - rewrite IH; auto.
+Qed.
+
+Lemma upd_upd m k v v' : upd (upd m k v) k v' = upd m k v'.
+Proof.
+  induction m as [|[k' v0] r IH]; cbn [upd]; auto.
+  destruct (N.eqb k' k) eqn:E; cbn [upd]; rewrite E; congruence.
+Qed.
+
+Lemma get_In_keys m k v : get N.eqb m k = Some v -> In k (map fst m).
+Proof.
+  induction m as [|[k' v'] r IH]; cbn [get map fst]; [discriminate|].
+  destruct (N.eqb k' k) eqn:E; intros H.
+  - apply N.eqb_eq in E. left; auto.
+  - right; auto.
+Qed.
+
+Lemma In_keys_get m k : In k (map fst m) -> exists v, get N.eqb m k = Some v.
+Proof.
+  induction m as [|[k' v'] r IH]; cbn [get map fst]; [intros []|].
+  intros [E|H].
+  - rewrite E, N.eqb_refl. eauto.
+  - destruct (N.eqb k' k); eauto.
+Qed.
+
+Lemma get_In_pair m k v : get N.eqb m k = Some v -> In (k, v) m.
+Proof.
+  induction m as [|[k' v'] r IH]; cbn [get]; [discriminate|].
+  destruct (N.eqb k' k) eqn:E; intros H.
+  - apply N.eqb_eq in E. left; congruence.
+  - right; auto.
+Qed.
+
+Lemma In_pair_get m k v : NoDup (map fst m) -> In (k, v) m -> get N.eqb m k = Some v.
+Proof.
+  induction m as [|[k' v'] r IH]; cbn [get map fst In]; [intros _ []|].
+  intros Hnd [H|H]; inversion Hnd; subst.
+  - inversion H; subst. rewrite N.eqb_refl. reflexivity.
+  - destruct (N.eqb k' k) eqn:E.
+    + apply N.eqb_eq in E; subst. exfalso. apply H2. change k with (fst (k, v)). apply in_map; auto.
+    + auto.
+Qed.
+
+(* counting the entries that satisfy a predicate *)
+Definition cnt (f : V -> bool) m : nat := length (filter (fun kv => f (snd kv)) m).
+
+Lemma cnt_upd f m k v v0 :
+  NoDup (map fst m) -> get N.eqb m k = Some v0 ->
+  (cnt f (upd m k v) + (if f v0 then 1 else 0) = cnt f m + (if f v then 1 else 0))%nat.
+Proof.
+  unfold cnt. induction m as [|[k' v'] r IH]; cbn [upd get map fst]; [discriminate|].
+  intros Hnd H. inversion Hnd; subst.
+  destruct (N.eqb k' k) eqn:E.
+  - inversion H; subst. cbn [filter snd]. destruct (f v0), (f v); cbn [length]; lia.
+  - cbn [filter snd]. specialize (IH H3 H). destruct (f v'); cbn [length]; lia.
+Qed.
+End Upd.
+Arguments cnt {V} f m.
+Arguments cnt_upd {V} f m k v v0 _ _.
+Arguments In_pair_get {V} m k v _ _.
+
+(* ---------------------------------------------------------------------------------------- *)
+(* configuration lemmas                                                                     *)
+(* ---------------------------------------------------------------------------------------- *)
+Lemma mem_In x l : mem x l = true <-> In x l.
+Proof.
+  unfold mem. rewrite existsb_exists. split.
+  - intros [y [Hy E]]. apply N.eqb_eq in E. subst; auto.
+  - intros H. exists x. split; auto. apply N.eqb_refl.
+Qed.
+
+Lemma nodupb_NoDup l : nodupb l = true -> NoDup l.
+Proof.
+  induction l as [|x r IH]; cbn [nodupb]; [constructor|].
+  intros H. apply andb_true_iff in H. destruct H as [H1 H2]. constructor; auto.
+  intros Hin. apply mem_In in Hin. rewrite Hin in H1. discriminate.
+Qed.
+
+Lemma nodupN_In x l : In x (nodupN l) <-> In x l.
+Proof.
+  induction l as [|y r IH]; cbn [nodupN]; [tauto|].
+  destruct (mem y r) eqn:E.
+  - rewrite IH. cbn [In]. split; auto. intros [->|H]; auto. apply mem_In; auto.
+  - cbn [In]. rewrite IH. tauto.
+Qed.
+
+Lemma find_step_id l i sc : find_step l i = Some sc -> s_id sc = i /\ In sc l.
+Proof.
+  induction l as [|a r IH]; cbn [find_step]; [discriminate|].
+  destruct (N.eqb_spec (s_id a) i) as [E|E]; intros H.
+  - inversion H; subst. split; auto. left; auto.
+  - destruct (IH H). split; auto. right; auto.
+Qed.
+
+Lemma find_step_In l sc : NoDup (map s_id l) -> In sc l -> find_step l (s_id sc) = Some sc.
+Proof.
+  induction l as [|a r IH]; cbn [find_step map In]; [intros _ []|].
+  intros Hnd [->|H]; inversion Hnd; subst.
+  - rewrite N.eqb_refl. reflexivity.
+  - destruct (N.eqb_spec (s_id a) (s_id sc)) as [E|E].
+    + exfalso. apply H2. rewrite E. apply in_map; auto.
+    + auto.
+Qed.
+
+Lemma find_step_some l i : In i (map s_id l) -> exists sc, find_step l i = Some sc.
+Proof.
+  induction l as [|a r IH]; cbn [find_step map In]; [intros []|].
+  intros [E|H].
+  - rewrite E, N.eqb_refl. eauto.
+  - destruct (N.eqb (s_id a) i); eauto.
+Qed.
+
+(* ---------------------------------------------------------------------------------------- *)
+(* shape of one transition                                                                  *)
+(* ---------------------------------------------------------------------------------------- *)
+Definition tid_step (x : tid) : step := match x with Step i | Bulletin i | Proc i | Crash i => i end.
+
+Inductive tcase (cfg : config) (s : gstate) (i : step) (t t' : thread) (sl : slotmap) (od : bool) : bool -> Prop :=
+  | tc_send :
+      status t = TRun -> ph t = PSend ->
+      t' = mk_thread (loc t) (if is_terminal (loc t) then PSend else PAct)
+                     (if is_terminal (loc t) then TFin else TRun) (chan t ++ [loc t]) (bull t) (proc t) ->
+      sl = slots s -> od = outdead s -> tcase cfg s i t t' sl od true
+  | tc_next sc l p :
+      find_step (c_steps cfg) i = Some sc -> status t = TRun -> ph t = PAct ->
+      handler cfg s sc t = HNext l p sl ->
+      t' = mk_thread l PSend TRun (chan t) (bull t) p -> od = outdead s -> tcase cfg s i t t' sl od true
+  | tc_resend sc :
+      find_step (c_steps cfg) i = Some sc -> status t = TRun -> ph t = PAct ->
+      handler cfg s sc t = HResend ->
+      t' = mk_thread (loc t) PSend TRun (chan t) (bull t) (proc t) -> sl = slots s -> od = outdead s ->
+      tcase cfg s i t t' sl od false
+  | tc_poll sc p ch :
+      find_step (c_steps cfg) i = Some sc -> status t = TRun -> ph t = PAct ->
+      handler cfg s sc t = HPoll p ch ->
+      t' = mk_thread (loc t) PAct TRun (chan t) (bull t) p -> sl = slots s -> od = outdead s ->
+      tcase cfg s i t t' sl od ch
+  | tc_die sc panic p :
+      find_step (c_steps cfg) i = Some sc -> status t = TRun -> ph t = PAct ->
+      handler cfg s sc t = HDie panic p sl ->
+      t' = mk_thread (loc t) PAct (TDead panic) (chan t) (bull t) p -> od = (outdead s || panic)%bool ->
+      tcase cfg s i t t' sl od true
+  | tc_bull x r :
+      chan t = x :: r -> t' = mk_thread (loc t) (ph t) (status t) r x (proc t) ->
+      sl = slots s -> od = outdead s -> tcase cfg s i t t' sl od true
+  | tc_proc sc p' :
+      find_step (c_steps cfg) i = Some sc ->
+      is_running (proc t) = true -> t' = set_proc t p' ->
+      (is_running p' = true \/ exists c, p' = Exited c) ->
+      (forall o' e' ofl' efl', p' = PRunning o' e' ofl' efl' ->
+         exists o e ofl efl, proc t = PRunning o e ofl efl /\ e' + efl' = e + efl /\ o' + ofl' = o + ofl /\ o' + e' < o + e) ->
+      sl = slots s -> od = outdead s -> tcase cfg s i t t' sl od true
+  | tc_crash :
+      status t = TRun -> outdead s = true -> t' = set_status t (TDead true) ->
+      sl = slots s -> od = outdead s -> tcase cfg s i t t' sl od true.
+
+Lemma step_ex_cases cfg s x s' b :
+  step_ex cfg s x = Some (s', b) ->
+  exists t t', tget (thr s) (tid_step x) = Some t /\ thr s' = upd (thr s) (tid_step x) t' /\
+               tcase cfg s (tid_step x) t t' (slots s') (outdead s') b.
+Proof.
+  destruct x as [i|i|i|i]; cbn [step_ex tid_step].
+  - destruct (find_step (c_steps cfg) i) as [sc|] eqn:Hf; [|discriminate].
+    destruct (tget (thr s) i) as [t|] eqn:Ht; [|discriminate].
+    destruct (status t) eqn:Hs; try discriminate.
+    destruct (ph t) eqn:Hp.
+    + destruct (is_terminal (loc t)) eqn:Hterm; intros H; inversion H; subst; clear H;
+        eexists _, _; (split; [reflexivity|]); (split; [reflexivity|]);
+        eapply tc_send; eauto; rewrite Hterm; reflexivity.
+    + destruct (handler cfg s sc t) eqn:Hh; intros H; inversion H; subst; clear H;
+        eexists _, _; (split; [reflexivity|]); (split; [reflexivity|]).
+      * eapply tc_next; eauto.
+      * eapply tc_resend; eauto.
+      * eapply tc_poll; eauto.
+      * eapply tc_die; eauto.
+  - destruct (tget (thr s) i) as [t|] eqn:Ht; [|discriminate].
+    destruct (chan t) as [|x r] eqn:Hc; [discriminate|].
+    intros H; inversion H; subst; clear H.
+    eexists _, _; (split; [reflexivity|]); (split; [reflexivity|]). eapply tc_bull; eauto.
+  - destruct (find_step (c_steps cfg) i) as [sc|] eqn:Hf; [|discriminate].
+    destruct (tget (thr s) i) as [t|] eqn:Ht; [|discriminate].
+    destruct (proc t) as [|o e ofl efl|c] eqn:Hp; try discriminate.
+    destruct (s_proc sc) as [|code o0 e0] eqn:Hsp; try discriminate.
+    destruct (N.ltb_spec 0 o) as [Ho|Ho].
+    + destruct (N.ltb_spec ofl (c_cap cfg)) as [Hlt|]; [|discriminate].
+      intros H; inversion H; subst; clear H.
+      eexists _, _; (split; [reflexivity|]); (split; [reflexivity|]).
+      eapply tc_proc; eauto; [rewrite Hp; reflexivity|].
+      intros o' e' ofl' efl' E. inversion E; subst. exists o, e', ofl, efl'. split; auto. repeat split; lia.
+    + destruct (N.ltb_spec 0 e) as [He|He].
+      * destruct (N.ltb_spec efl (c_cap cfg)) as [Hlt|]; [|discriminate].
+        intros H; inversion H; subst; clear H.
+        eexists _, _; (split; [reflexivity|]); (split; [reflexivity|]).
+        eapply tc_proc; eauto; [rewrite Hp; reflexivity|].
+        intros o' e' ofl' efl' E. inversion E; subst. exists o', e, ofl', efl. split; auto. repeat split; lia.
+      * intros H; inversion H; subst; clear H.
+        eexists _, _; (split; [reflexivity|]); (split; [reflexivity|]).
+        eapply tc_proc; eauto; [rewrite Hp; reflexivity|].
+        intros o' e' ofl' efl' E. discriminate E.
+  - destruct (outdead s) eqn:Hod; [|discriminate].
+    destruct (tget (thr s) i) as [t|] eqn:Ht; [|discriminate].
+    destruct (status t) eqn:Hs; try discriminate.
+    intros H; inversion H; subst; clear H.
+    eexists _, _; (split; [reflexivity|]); (split; [reflexivity|]). eapply tc_crash; eauto.
+Qed.
+
+(* ---------------------------------------------------------------------------------------- *)
+(* facts about the handler                                                                  *)
+(* ---------------------------------------------------------------------------------------- *)
+Definition past_wait (l : lstate) : bool :=
+  match fst l with
+  | CheckingOutputs | CheckingSuperficialDiffs | CheckingThoroughDiffs | ComparingDiffsAndOutputs
+  | WaitingToRun | Running | DoneByRunning => true
+  | _ => false
+  end.
+
+(* the state of a dependency step allows the dependent to go on *)
+Definition dep_ok (sc : stepcfg) (l : lstate) : bool := is_done l || (when_always sc && is_terminal l).
+Definition deps_bull_ok cfg s sc : bool := forallb (fun j => dep_ok sc (bull_of s j)) (deps_of cfg sc).
+Definition deps_loc_ok cfg s sc : bool := forallb (fun j => dep_ok sc (loc_of s j)) (deps_of cfg sc).
+
+Lemma forallb_map {A B} (f : B -> bool) (g : A -> B) l : forallb f (map g l) = forallb (fun x => f (g x)) l.
+Proof. induction l; cbn [map forallb]; congruence. Qed.
+
+Lemma forallb_impl {A} (f g : A -> bool) l : (forall x, In x l -> f x = true -> g x = true) -> forallb f l = true -> forallb g l = true.
+Proof.
+  intros H. rewrite !forallb_forall. intros Hf x Hx. auto.
+Qed.
+
+Lemma no_records_no_deps cfg sc : has_dep_records sc = false -> deps_of cfg sc = [].
+Proof.
+  unfold has_dep_records, deps_of, explicit_targets, implicit_targets, reads_output_of.
+  destruct (s_deps sc); [|discriminate]. intros _. cbn [flat_map app].
+  assert (E : forall l : list stepcfg, flat_map (fun p => if existsb (fun o : path => existsb (fun d => dep_reads cfg d o) []) (s_outs p) then [s_id p] else []) l = []).
+  { induction l as [|a r IH]; cbn [flat_map]; auto. rewrite IH.
+    assert (E2 : existsb (fun o : path => existsb (fun d => dep_reads cfg d o) []) (s_outs a) = false).
+    { induction (s_outs a); cbn [existsb]; auto. }
+    rewrite E2. reflexivity. }
+  rewrite E. reflexivity.
+Qed.
+
+Lemma is_terminal_cases l : is_terminal l = true <-> is_done l = true \/ is_broken l = true.
+Proof. unfold is_terminal. rewrite orb_true_iff. tauto. Qed.
+
+Lemma ignore_broken_dep_ok cfg sc l :
+  rc_ignore_broken sc = true -> is_terminal l = true -> deps_of cfg sc <> [] -> dep_ok sc l = true.
+Proof.
+  unfold rc_ignore_broken, rc_always, dep_ok, when_always. intros H Ht Hd.
+  destruct (s_when sc); try discriminate.
+  - apply negb_true_iff in H. apply (no_records_no_deps cfg) in H. contradiction.
+  - rewrite Ht. apply orb_true_r.
+Qed.
+
+Ltac hcases t :=
+  unfold handler, compare_outcome, goto;
+  destruct (loc t) as [st ev]; destruct st; destruct ev as [[]|]; cbn [fst snd];
+  repeat break_match; try discriminate.
+
+Ltac hyp_cases H t :=
+  unfold handler, compare_outcome, goto in H;
+  destruct (loc t) as [st ev] eqn:Hl; destruct st; destruct ev as [[]|]; cbn [fst snd] in H;
+  repeat break_match_hyp; try discriminate H; inversion H; subst; clear H.
+
+Lemma handler_past_wait cfg s sc t l p sl :
+  handler cfg s sc t = HNext l p sl -> past_wait l = true ->
+  past_wait (loc t) = true \/ deps_bull_ok cfg s sc = true.
+Proof.
+  intros H H0.
+  destruct (loc t) as [st ev] eqn:Hl.
+  assert (Hpw : past_wait (st, ev) = true \/ st = WaitingDependencySteps \/ (past_wait (st, ev) = false /\ st <> WaitingDependencySteps)).
+  { destruct st; cbn; auto; right; right; split; auto; discriminate. }
+  destruct Hpw as [Hpw|[Hpw|[Hpw1 Hpw2]]]; [left; exact Hpw| |].
+  - subst st. right. revert H. unfold handler, goto. rewrite Hl.
+    destruct ev as [[]|]; try discriminate.
+    + destruct (deps_of cfg sc) eqn:Hd; intros H; inversion H; subst; clear H.
+      * unfold deps_bull_ok. rewrite Hd. reflexivity.
+      * discriminate.
+    + unfold deps_bull_ok. rewrite !forallb_map.
+      destruct (forallb (fun x => is_done (bull_of s x)) (deps_of cfg sc)) eqn:Hdone.
+      * intros _. eapply forallb_impl; [|exact Hdone]. cbn beta. intros x _ Hx. unfold dep_ok. rewrite Hx. reflexivity.
+      * assert (Hne : deps_of cfg sc <> []) by (intros E; rewrite E in Hdone; discriminate).
+        assert (Hbr : forallb (fun x => is_terminal (bull_of s x)) (deps_of cfg sc) = true ->
+                      (if rc_ignore_broken sc then HNext (CheckingOutputs, Some DependencyStepsFinishedBrokenIgnored) (proc t) (slots s)
+                       else HNext (Broken, Some DependencyStepsFinishedBroken) (proc t) (slots s)) = HNext l p sl ->
+                      forallb (fun j => dep_ok sc (bull_of s j)) (deps_of cfg sc) = true).
+        { intros Hterm. destruct (rc_ignore_broken sc) eqn:Hib; intros H; inversion H; subst; clear H; [|discriminate].
+          eapply forallb_impl; [|exact Hterm]. cbn beta. intros x _ Hx. eapply ignore_broken_dep_ok; eauto. }
+        destruct (forallb (fun x => is_broken (bull_of s x)) (deps_of cfg sc)) eqn:Hbroken.
+        { apply Hbr. eapply forallb_impl; [|exact Hbroken]. cbn beta. intros x _ Hx. unfold is_terminal. rewrite Hx. apply orb_true_r. }
+        destruct (fixed_P12 cfg); cbn [andb]; [|discriminate].
+        destruct (forallb (fun x => is_terminal (bull_of s x)) (deps_of cfg sc)) eqn:Hterm; [|discriminate].
+        apply Hbr. reflexivity.
+  - exfalso. revert H H0. unfold handler, compare_outcome, goto. rewrite Hl.
+    destruct st; try (exfalso; apply Hpw2; reflexivity); try discriminate Hpw1;
+      destruct ev as [[]|]; repeat break_match; intros H; inversion H; subst; discriminate.
+Qed.
+
+Lemma handler_proc_next cfg s sc t l p sl :
+  handler cfg s sc t = HNext l p sl -> p = proc t \/ fst (loc t) = Running.
+Proof. hcases t; intros H; inversion H; subst; auto. Qed.
+
+Lemma handler_proc_poll cfg s sc t p ch :
+  handler cfg s sc t = HPoll p ch -> p = proc t \/ (fst (loc t) = Running /\ is_running (proc t) = true /\ is_running p = true).
+Proof. hcases t; intros H; inversion H; subst; auto; right; rewrite ?Heqp0; auto. Qed.
+
+Lemma handler_proc_die cfg s sc t panic p sl :
+  handler cfg s sc t = HDie panic p sl -> p = proc t \/ fst (loc t) = Running.
+Proof. hcases t; intros H; inversion H; subst; auto. Qed.
+
+Lemma handler_run_next cfg s sc t l p sl :
+  handler cfg s sc t = HNext l p sl -> is_running p = true -> fst (loc t) = Running -> fst l = Running.
+Proof.
+  hcases t; intros H; inversion H; subst; auto; intros Hr _; try discriminate.
+  all: rewrite ?Heqp0 in Hr; try discriminate.
+Qed.
+
+(* where a thread whose command was started can be *)
+Definition after_start (l : lstate) : bool :=
+  match l with
+  | (Running, Some StartProcess) => false
+  | (Running, Some _) => true
+  | (DoneByRunning, _) => true
+  | (Broken, _) => true
+  | _ => false
+  end.
+
+Lemma handler_started_next cfg s sc t l p sl :
+  handler cfg s sc t = HNext l p sl -> started p = true ->
+  (started (proc t) = true -> after_start (loc t) = true) -> after_start l = true.
+Proof.
+  intros H. hyp_cases H t; cbn [after_start]; auto; intros Hs Hi; try (apply Hi; exact Hs).
+Qed.
+
+Lemma handler_started_poll cfg s sc t p ch :
+  handler cfg s sc t = HPoll p ch -> started p = true ->
+  (started (proc t) = true -> after_start (loc t) = true) -> after_start (loc t) = true.
+Proof.
+  intros H. hyp_cases H t; cbn [after_start]; auto; intros Hs Hi; try (apply Hi; exact Hs).
+Qed.
+
+(* ---------------------------------------------------------------------------------------- *)
+(* the safety invariant (holds for every setting of the repair switches)                    *)
+(* ---------------------------------------------------------------------------------------- *)
+Record tinv0 (t : thread) : Prop := {
+  ti_act : ph t = PAct -> status t = TRun -> is_terminal (loc t) = false;
+  ti_hist : forall x, In x (bull t :: chan t) -> is_terminal x = true -> x = loc t;
+  ti_run : is_running (proc t) = true -> fst (loc t) = Running;
+  ti_fin : status t = TFin -> is_terminal (loc t) = true;
+  ti_started : status t = TRun -> started (proc t) = true -> after_start (loc t) = true
+}.
+Arguments ti_act {t} _. Arguments ti_hist {t} _. Arguments ti_run {t} _. Arguments ti_fin {t} _. Arguments ti_started {t} _.
+
+Record Inv (cfg : config) (s : gstate) : Prop := {
+  inv_keys : map fst (thr s) = step_ids cfg;
+  inv_nodup : NoDup (step_ids cfg);
+  inv_thr : forall j t, tget (thr s) j = Some t -> tinv0 t;
+  inv_deps : forall j sc t, find_step (c_steps cfg) j = Some sc -> tget (thr s) j = Some t ->
+             past_wait (loc t) = true \/ started (proc t) = true -> deps_loc_ok cfg s sc = true
+}.
+Arguments inv_keys {cfg s} _. Arguments inv_nodup {cfg s} _. Arguments inv_thr {cfg s} _. Arguments inv_deps {cfg s} _.
+
+Lemma get_init_thread l j t :
+  get N.eqb (map (fun i : N => (i, init_thread)) l) j = Some t -> t = init_thread.
+Proof.
+  induction l as [|a r IH]; cbn [map get]; [discriminate|].
+  destruct (N.eqb a j); intros H; [inversion H; auto|auto].
+Qed.
+
+Lemma init_keys cfg : map fst (thr (init_state cfg)) = step_ids cfg.
+Proof.
+  unfold init_state; cbn [thr]. rewrite map_map. cbn [fst]. apply map_id.
+Qed.
+
+Lemma Inv_init cfg s0 : init cfg = Accepted s0 -> Inv cfg s0.
+Proof.
+  unfold init. destruct (wf_cfg cfg) eqn:Hwf; cbn [negb]; [|discriminate].
+  destruct (forallb _ (c_steps cfg)); cbn [negb]; [|discriminate].
+  destruct (acyclicb cfg); cbn [negb]; [|discriminate].
+  intros H; inversion H; subst; clear H.
+  split.
+  - apply init_keys.
+  - apply nodupb_NoDup; exact Hwf.
+  - intros j t Ht. apply get_init_thread in Ht. subst t.
+    split; cbn; try discriminate.
+    intros x [<-|[]]. discriminate.
+  - intros j sc t _ Ht. apply get_init_thread in Ht. subst t. cbn. intros [H|H]; discriminate.
+Qed.
+
+Lemma loc_of_upd s i t' s' j :
+  thr s' = upd (thr s) i t' ->
+  loc_of s' j = if N.eqb j i then match tget (thr s) i with Some _ => loc t' | None => lbegin end else loc_of s j.
+Proof.
+  intros E. unfold loc_of, tget. rewrite E, get_upd.
+  destruct (N.eqb j i); auto. destruct (get N.eqb (thr s) i); auto.
+Qed.
+
+(* verdicts are final: a terminal thread-local state never changes *)
+Lemma tcase_loc_stable cfg s i t t' sl od b :
+  tinv0 t -> tcase cfg s i t t' sl od b -> is_terminal (loc t) = true -> loc t' = loc t.
+Proof.
+  intros Hi Hc Hterm. destruct Hc; subst; cbn [loc mk_thread set_proc set_status]; auto.
+  rewrite (ti_act Hi) in Hterm; auto. discriminate.
+Qed.
+
+Lemma step_loc_stable cfg s x s' b k :
+  Inv cfg s -> step_ex cfg s x = Some (s', b) ->
+  is_terminal (loc_of s k) = true -> loc_of s' k = loc_of s k.
+Proof.
+  intros HI Hs Hterm. destruct (step_ex_cases _ _ _ _ _ Hs) as [t [t' [Ht [Hthr Hc]]]].
+  rewrite (loc_of_upd _ _ _ _ k Hthr).
+  destruct (N.eqb_spec k (tid_step x)) as [->|Hne]; auto.
+  unfold tget in Ht. fold (tget (thr s) (tid_step x)) in Ht. rewrite Ht.
+  unfold loc_of in *. rewrite Ht in *. eapply tcase_loc_stable; eauto. eapply inv_thr; eauto.
+Qed.
+
+Lemma dep_ok_terminal sc l : dep_ok sc l = true -> is_terminal l = true.
+Proof.
+  unfold dep_ok, is_terminal. intros H. apply orb_true_iff in H. destruct H as [H|H].
+  - rewrite H. reflexivity.
+  - apply andb_true_iff in H. destruct H as [_ H]. exact H.
+Qed.
+
+Lemma deps_loc_ok_stable cfg s x s' b sc :
+  Inv cfg s -> step_ex cfg s x = Some (s', b) ->
+  deps_loc_ok cfg s sc = true -> deps_loc_ok cfg s' sc = true.
+Proof.
+  intros HI Hs. unfold deps_loc_ok. apply forallb_impl. intros k _ Hk.
+  rewrite (step_loc_stable _ _ _ _ _ k HI Hs); auto. eapply dep_ok_terminal; eauto.
+Qed.
+
+Lemma bull_is_loc cfg s j : Inv cfg s -> is_terminal (bull_of s j) = true -> bull_of s j = loc_of s j.
+Proof.
+  intros HI. unfold bull_of, loc_of. destruct (tget (thr s) j) as [t|] eqn:Ht; auto.
+  intros H. apply (ti_hist (inv_thr HI _ _ Ht)); auto. left; auto.
+Qed.
+
+Lemma deps_bull_loc cfg s sc : Inv cfg s -> deps_bull_ok cfg s sc = true -> deps_loc_ok cfg s sc = true.
+Proof.
+  intros HI. unfold deps_bull_ok, deps_loc_ok. apply forallb_impl. intros k _ Hk.
+  rewrite <- (bull_is_loc _ _ _ HI); auto. eapply dep_ok_terminal; eauto.
+Qed.
+
+Lemma tinv0_step cfg s i t t' sl od b : tinv0 t -> tcase cfg s i t t' sl od b -> tinv0 t'.
+Proof.
+  intros Hi Hc. destruct Hc; subst.
+  - (* send *)
+    destruct (is_terminal (loc t)) eqn:Hterm; split; cbn [loc ph status chan bull proc mk_thread]; try discriminate; auto.
+    + intros x [Hx|Hx] Hx2; [apply (ti_hist Hi); auto; left; auto|].
+      apply in_app_or in Hx. destruct Hx as [Hx|[Hx|[]]]; auto. apply (ti_hist Hi); auto. right; auto.
+    + apply (ti_run Hi).
+    + intros x [Hx|Hx] Hx2; [apply (ti_hist Hi); auto; left; auto|].
+      apply in_app_or in Hx. destruct Hx as [Hx|[Hx|[]]]; auto. apply (ti_hist Hi); auto. right; auto.
+    + apply (ti_run Hi).
+    + intros _. apply (ti_started Hi); auto.
+  - (* next *)
+    split; cbn [loc ph status chan bull proc mk_thread]; try discriminate.
+    + intros x Hx Hx2. exfalso. rewrite (ti_hist Hi _ Hx Hx2) in Hx2. rewrite (ti_act Hi) in Hx2; auto. discriminate.
+    + intros Hr. destruct (handler_proc_next _ _ _ _ _ _ _ H2) as [->|Hl].
+      * eapply handler_run_next; eauto. apply (ti_run Hi); auto.
+      * eapply handler_run_next; eauto.
+    + intros _ Hs. eapply handler_started_next; eauto. apply (ti_started Hi); auto.
+  - (* resend *)
+    split; cbn [loc ph status chan bull proc mk_thread]; try discriminate.
+    + apply (ti_hist Hi).
+    + apply (ti_run Hi).
+    + intros _. apply (ti_started Hi); auto.
+  - (* poll *)
+    split; cbn [loc ph status chan bull proc mk_thread]; try discriminate.
+    + intros _ _. apply (ti_act Hi); auto.
+    + apply (ti_hist Hi).
+    + intros Hr. destruct (handler_proc_poll _ _ _ _ _ _ H2) as [->|[Hl _]]; auto. apply (ti_run Hi); auto.
+    + intros _ Hs. eapply handler_started_poll; eauto. apply (ti_started Hi); auto.
+  - (* die *)
+    split; cbn [loc ph status chan bull proc mk_thread]; try discriminate.
+    + apply (ti_hist Hi).
+    + intros Hr. destruct (handler_proc_die _ _ _ _ _ _ _ H2) as [->|Hl]; auto. apply (ti_run Hi); auto.
+  - (* bulletin *)
+    split; cbn [loc ph status chan bull proc mk_thread].
+    + apply (ti_act Hi).
+    + intros y Hy. apply (ti_hist Hi). rewrite H. right. exact Hy.
+    + apply (ti_run Hi).
+    + apply (ti_fin Hi).
+    + apply (ti_started Hi).
+  - (* proc *)
+    split; cbn [loc ph status chan bull proc set_proc].
+    + apply (ti_act Hi).
+    + apply (ti_hist Hi).
+    + intros _. apply (ti_run Hi); auto.
+    + apply (ti_fin Hi).
+    + intros Hs _. apply (ti_started Hi); auto. destruct (proc t); try discriminate; reflexivity.
+  - (* crash *)
+    split; cbn [loc ph status chan bull proc set_status]; try discriminate.
+    + apply (ti_hist Hi).
+    + apply (ti_run Hi).
+Qed.
+
+Lemma Inv_step cfg s x s' b : Inv cfg s -> step_ex cfg s x = Some (s', b) -> Inv cfg s'.
+Proof.
+  intros HI Hs. destruct (step_ex_cases _ _ _ _ _ Hs) as [t [t' [Ht [Hthr Hc]]]].
+  set (i := tid_step x) in *.
+  assert (Hti : tinv0 t) by (eapply inv_thr; eauto).
+  split.
+  - rewrite Hthr, upd_keys. apply (inv_keys HI).
+  - apply (inv_nodup HI).
+  - intros j tj. unfold tget. rewrite Hthr, get_upd.
+    destruct (N.eqb_spec j i) as [->|Hne].
+    + unfold tget in Ht. rewrite Ht. intros E; inversion E; subst. eapply tinv0_step; eauto.
+    + apply (inv_thr HI).
+  - intros j sc tj Hf. unfold tget. rewrite Hthr, get_upd.
+    destruct (N.eqb_spec j i) as [->|Hne].
+    + unfold tget in Ht. rewrite Ht. intros E; inversion E; subst tj; clear E. intros Hpw.
+      assert (Hold : past_wait (loc t) = true \/ started (proc t) = true -> deps_loc_ok cfg s' sc = true).
+      { intros Hx. eapply deps_loc_ok_stable; eauto. eapply (inv_deps HI); eauto. }
+      destruct Hc; subst t'; cbn [loc proc mk_thread set_proc set_status] in Hpw; auto.
+      * (* next *)
+        rewrite Hf in H; inversion H; subst sc0; clear H.
+        destruct Hpw as [Hpw|Hpw].
+        -- destruct (handler_past_wait _ _ _ _ _ _ _ H2 Hpw) as [Hx|Hx]; auto.
+           eapply deps_loc_ok_stable; eauto. apply deps_bull_loc; auto.
+        -- destruct (handler_proc_next _ _ _ _ _ _ _ H2) as [->|Hl]; auto.
+           apply Hold. left. unfold past_wait. rewrite Hl. reflexivity.
+      * (* poll *)
+        destruct Hpw as [Hpw|Hpw]; auto.
+        destruct (handler_proc_poll _ _ _ _ _ _ H2) as [->|[Hl _]]; auto.
+        apply Hold. left. unfold past_wait. rewrite Hl. reflexivity.
+      * (* die *)
+        destruct Hpw as [Hpw|Hpw]; auto.
+        destruct (handler_proc_die _ _ _ _ _ _ _ H2) as [->|Hl]; auto.
+        apply Hold. left. unfold past_wait. rewrite Hl. reflexivity.
+      * (* proc *)
+        destruct Hpw as [Hpw|Hpw]; auto. apply Hold. right.
+        destruct (proc t); try discriminate; reflexivity.
+    + intros Htj Hpw. eapply deps_loc_ok_stable; eauto. eapply (inv_deps HI); eauto.
+Qed.
+
+Lemma Inv_step_fn cfg s x s' : Inv cfg s -> step_fn cfg s x = Some s' -> Inv cfg s'.
+Proof.
+  unfold step_fn. destruct (step_ex cfg s x) as [[s1 b]|] eqn:E; [|discriminate].
+  intros HI H; inversion H; subst. eapply Inv_step; eauto.
+Qed.
+
+Lemma Inv_run_sched cfg sch : forall s, Inv cfg s -> Inv cfg (run_sched cfg s sch).
+Proof.
+  induction sch as [|x r IH]; cbn [run_sched]; auto.
+  intros s HI. destruct (step_fn cfg s x) eqn:E; auto. apply IH. eapply Inv_step_fn; eauto.
+Qed.
+
+Lemma Inv_run cfg sch s : run cfg sch = Accepted s -> Inv cfg s.
+Proof.
+  unfold run. destruct (init cfg) as [r|s0] eqn:E; [discriminate|].
+  intros H; inversion H; subst. apply Inv_run_sched. apply Inv_init; auto.
+Qed.
+
+(* ---------------------------------------------------------------------------------------- *)
+(* C10                                                                                      *)
+(* ---------------------------------------------------------------------------------------- *)
+Lemma edges_deps cfg i j :
+  In (i, j) (edges cfg) <-> exists sc, In sc (c_steps cfg) /\ s_id sc = i /\ In j (deps_of cfg sc).
+Proof.
+  unfold edges. rewrite in_flat_map. split.
+  - intros [sc [Hsc Hin]]. apply in_map_iff in Hin. destruct Hin as [j' [E Hj]]. inversion E; subst. eauto.
+  - intros [sc [Hsc [E Hj]]]. exists sc. split; auto. apply in_map_iff. exists j. subst; auto.
+Qed.
+
+Lemma edges_find cfg i j :
+  NoDup (step_ids cfg) -> In (i, j) (edges cfg) ->
+  exists sc, find_step (c_steps cfg) i = Some sc /\ In j (deps_of cfg sc).
+Proof.
+  intros Hnd H. apply edges_deps in H. destruct H as [sc [Hsc [E Hj]]]. exists sc. split; auto.
+  subst i. apply find_step_In; auto.
+Qed.
+
+Lemma loc_of_terminal_thread s j :
+  is_terminal (loc_of s j) = true -> exists tj, tget (thr s) j = Some tj /\ loc_of s j = loc tj.
+Proof.
+  unfold loc_of. destruct (tget (thr s) j) as [tj|]; [eauto|discriminate].
+Qed.
+
+Lemma started_after_dependencies_lemma cfg sch s i j sc ti :
+  run cfg sch = Accepted s ->
+  find_step (c_steps cfg) i = Some sc -> In j (deps_of cfg sc) ->
+  tget (thr s) i = Some ti -> started (proc ti) = true ->
+  exists tj, tget (thr s) j = Some tj /\ is_running (proc tj) = false /\
+             (is_done (loc tj) = true \/ (s_when sc = Always /\ is_terminal (loc tj) = true)).
+Proof.
+  intros Hrun Hf Hj Hti Hst. pose proof (Inv_run _ _ _ Hrun) as HI.
+  assert (Hd : deps_loc_ok cfg s sc = true) by (eapply (inv_deps HI); eauto).
+  unfold deps_loc_ok in Hd. rewrite forallb_forall in Hd. specialize (Hd _ Hj).
+  pose proof (dep_ok_terminal _ _ Hd) as Hterm.
+  destruct (loc_of_terminal_thread _ _ Hterm) as [tj [Htj El]]. rewrite El in *.
+  exists tj. split; auto. split.
+  - destruct (is_running (proc tj)) eqn:Hr; auto.
+    pose proof (ti_run (inv_thr HI _ _ Htj) Hr) as Hl. unfold is_terminal, is_done, is_broken in Hterm. rewrite Hl in Hterm. discriminate.
+  - unfold dep_ok in Hd. apply orb_true_iff in Hd. destruct Hd as [Hd|Hd]; auto.
+    apply andb_true_iff in Hd. destruct Hd as [Hw Ht]. right. split; auto.
+    unfold when_always in Hw. destruct (s_when sc); auto; discriminate.
+Qed.
+
+Lemma run_sched_loc_stable cfg sch : forall s k,
+  Inv cfg s -> is_terminal (loc_of s k) = true -> loc_of (run_sched cfg s sch) k = loc_of s k.
+Proof.
+  induction sch as [|x r IH]; cbn [run_sched]; auto.
+  intros s k HI Hterm. unfold step_fn. destruct (step_ex cfg s x) as [[s1 b]|] eqn:E; auto.
+  assert (E1 : loc_of s1 k = loc_of s k) by (eapply step_loc_stable; eauto).
+  rewrite IH; auto.
+  - eapply Inv_step; eauto.
+  - rewrite E1; auto.
+Qed.
+
+Lemma downstream_of_failed_never_starts_lemma cfg sch s i j sc :
+  run cfg sch = Accepted s ->
+  find_step (c_steps cfg) i = Some sc -> In j (deps_of cfg sc) ->
+  is_broken (loc_of s j) = true -> s_when sc <> Always ->
+  forall sch' ti, tget (thr (run_sched cfg s sch')) i = Some ti -> proc ti = NotStarted.
+Proof.
+  intros Hrun Hf Hj Hbr Hw sch' ti Hti. pose proof (Inv_run _ _ _ Hrun) as HI.
+  pose proof (Inv_run_sched cfg sch' _ HI) as HI'.
+  assert (El : loc_of (run_sched cfg s sch') j = loc_of s j).
+  { apply run_sched_loc_stable; auto. unfold is_terminal. rewrite Hbr. apply orb_true_r. }
+  destruct (started (proc ti)) eqn:Hst; [|destruct (proc ti); auto; discriminate].
+  exfalso.
+  assert (Hd : deps_loc_ok cfg (run_sched cfg s sch') sc = true) by (eapply (inv_deps HI'); eauto).
+  unfold deps_loc_ok in Hd. rewrite forallb_forall in Hd. specialize (Hd _ Hj). rewrite El in Hd.
+  unfold dep_ok in Hd. apply orb_true_iff in Hd. destruct Hd as [Hd|Hd].
+  - unfold is_done, is_broken in *. destruct (fst (loc_of s j)); discriminate.
+  - apply andb_true_iff in Hd. destruct Hd as [Hd _]. unfold when_always in Hd. destruct (s_when sc); try discriminate. apply Hw; reflexivity.
+Qed.
+
 Lemma cyclic_rejected_lemma cfg sch :
   acyclicb cfg = false -> exists r, run cfg sch = Rejected r.
 Proof.
@@ -37,3 +710,276 @@ Proof.
   destruct (negb (wf_cfg cfg)); [eexists; reflexivity|].
   destruct (negb (forallb _ _)); eexists; reflexivity.
 Qed.
+
+Inductive path (es : list (step * step)) : step -> step -> Prop :=
+  | path_one i j : In (i, j) es -> path es i j
+  | path_cons i j k : In (i, j) es -> path es j k -> path es i k.
+
+Lemma check_topo_path ord es i k :
+  check_topo ord es = true -> path es i k ->
+  exists a b, index_of k ord = Some a /\ index_of i ord = Some b /\ (a < b)%nat.
+Proof.
+  intros Hc Hp. unfold check_topo in Hc. rewrite forallb_forall in Hc.
+  induction Hp as [i j Hin|i j k Hin Hp IH].
+  - specialize (Hc _ Hin). cbn [fst snd] in Hc.
+    destruct (index_of j ord) as [a|]; [|discriminate]. destruct (index_of i ord) as [b|]; [|discriminate].
+    apply Nat.ltb_lt in Hc. eauto.
+  - specialize (Hc _ Hin). cbn [fst snd] in Hc.
+    destruct IH as [a [b [Ha [Hb Hlt]]]]. rewrite Hb in Hc.
+    destruct (index_of i ord) as [c|]; [|discriminate]. apply Nat.ltb_lt in Hc.
+    exists a, c. split; auto. split; auto. lia.
+Qed.
+
+Lemma accepted_no_cycle_lemma cfg : acyclicb cfg = true -> forall i, ~ path (edges cfg) i i.
+Proof.
+  unfold acyclicb, toposort. destruct (topo _ _ _ _) as [ord|]; [|discriminate].
+  destruct (check_topo ord (edges cfg)) eqn:Hc; [|discriminate].
+  intros _ i Hp. destruct (check_topo_path _ _ _ _ Hc Hp) as [a [b [Ha [Hb Hlt]]]].
+  rewrite Ha in Hb. inversion Hb; subst. lia.
+Qed.
+
+Lemma run_accepted_acyclic cfg sch s : run cfg sch = Accepted s -> acyclicb cfg = true.
+Proof.
+  unfold run, init. destruct (negb (wf_cfg cfg)); [discriminate|].
+  destruct (negb (forallb _ _)); [discriminate|].
+  destruct (acyclicb cfg); auto. discriminate.
+Qed.
+
+(* every read of a declared output that dependencies_to_path recognises is an edge *)
+Lemma dep_reads_edge cfg r p d o :
+  In r (c_steps cfg) -> In p (c_steps cfg) -> In d (s_deps r) -> In o (s_outs p) ->
+  dep_reads cfg d o = true -> In (s_id r, s_id p) (edges cfg).
+Proof.
+  intros Hr Hp Hd Ho Hread. apply edges_deps. exists r. split; auto. split; auto.
+  unfold deps_of. apply nodupN_In. apply in_or_app. right.
+  unfold implicit_targets. apply in_flat_map. exists p. split; auto.
+  assert (E : reads_output_of cfg r p = true).
+  { unfold reads_output_of. apply existsb_exists. exists o. split; auto. apply existsb_exists. exists d. auto. }
+  rewrite E. left; auto.
+Qed.
+
+Lemma explicit_edge cfg r j : In r (c_steps cfg) -> In (DStep j) (s_deps r) -> In (s_id r, j) (edges cfg).
+Proof.
+  intros Hr Hd. apply edges_deps. exists r. split; auto. split; auto.
+  unfold deps_of. apply nodupN_In. apply in_or_app. left.
+  unfold explicit_targets. apply in_flat_map. exists (DStep j). split; auto. left; auto.
+Qed.
+
+Lemma edges_cover_declared_reads_lemma cfg r p d o :
+  In r (c_steps cfg) -> In p (c_steps cfg) -> In d (s_deps r) -> In o (s_outs p) ->
+  file_like d = true -> sem_reads d o = true -> In (s_id r, s_id p) (edges cfg).
+Proof.
+  intros Hr Hp Hd Ho Hf Hs. eapply dep_reads_edge; eauto.
+  destruct d; try discriminate. exact Hs.
+Qed.
+
+Lemma edges_cover_all_reads_lemma cfg r p d o :
+  Known_glob_on_absent_output cfg = false ->
+  In r (c_steps cfg) -> In p (c_steps cfg) -> In d (s_deps r) -> In o (s_outs p) ->
+  sem_reads d o = true -> In (s_id r, s_id p) (edges cfg).
+Proof.
+  intros Hk Hr Hp Hd Ho Hs. eapply dep_reads_edge; eauto.
+  destruct (dep_reads cfg d o) eqn:E; auto. exfalso.
+  destruct (file_like d) eqn:Hf.
+  - destruct d; try discriminate. cbn in *. congruence.
+  - assert (Known_glob_on_absent_output cfg = true); [|congruence].
+    unfold Known_glob_on_absent_output.
+    apply existsb_exists. exists r. split; auto.
+    apply existsb_exists. exists p. split; auto.
+    apply existsb_exists. exists o. split; auto.
+    apply existsb_exists. exists d. split; auto.
+    rewrite Hf, Hs, E. reflexivity.
+Qed.
+
+(* ---------------------------------------------------------------------------------------- *)
+(* C13: the pool                                                                            *)
+(* ---------------------------------------------------------------------------------------- *)
+Definition is_Running (l : lstate) : bool := match fst l with Running => true | _ => false end.
+Definition is_TRun (st : tstatus) : bool := match st with TRun => true | _ => false end.
+(* the thread holds a process slot *)
+Definition holder (t : thread) : bool := is_Running (loc t) && (is_TRun (status t) || started (proc t)).
+Definition hv (t : thread) : N := if holder t then 1 else 0.
+
+Lemma handler_pool_next cfg s sc t l p sl v c b :
+  fix_shared_pool cfg = true -> fix_atomic_acquire cfg = true -> slots s = [(0, v)] ->
+  status t = TRun ->
+  handler cfg s sc t = HNext l p sl ->
+  exists v', sl = [(0, v')] /\ v' + hv (mk_thread l PSend TRun c b p) <= v + hv t.
+Proof.
+  intros Hsh Hat Hsl Hst H. unfold hv, holder. rewrite Hst.
+  unfold handler, compare_outcome, goto, slot_val, skey in H.
+  rewrite Hsh, Hat, Hsl in H. cbn [nget get N.eqb upd] in H.
+  destruct (loc t) as [st ev] eqn:Hl; destruct st; destruct ev as [[]|]; cbn [fst snd] in H;
+    repeat break_match_hyp; try discriminate H; inversion H; subst; clear H;
+    cbn [loc status proc mk_thread is_Running fst andb orb is_TRun started];
+    eexists; (split; [reflexivity|]); try lia.
+  all: try (match goal with Hlt : N.ltb 0 _ = true |- _ => apply N.ltb_lt in Hlt end; lia).
+Qed.
+
+Lemma handler_pool_die cfg s sc t panic p sl v c b :
+  fix_shared_pool cfg = true -> fix_atomic_acquire cfg = true -> slots s = [(0, v)] ->
+  status t = TRun -> (started (proc t) = true -> after_start (loc t) = true) ->
+  handler cfg s sc t = HDie panic p sl ->
+  exists v', sl = [(0, v')] /\ v' + hv (mk_thread (loc t) PAct (TDead panic) c b p) <= v + hv t.
+Proof.
+  intros Hsh Hat Hsl Hst Hstarted H. unfold hv, holder. rewrite Hst.
+  unfold handler, compare_outcome, goto, slot_val, skey in H.
+  rewrite Hsh, Hat, Hsl in H. cbn [nget get N.eqb upd] in H.
+  destruct (loc t) as [st ev] eqn:Hl; destruct st; destruct ev as [[]|]; cbn [fst snd] in H;
+    repeat break_match_hyp; try discriminate H; inversion H; subst; clear H;
+    cbn [loc status proc mk_thread is_Running fst andb orb is_TRun started];
+    eexists; (split; [reflexivity|]); try lia.
+  all: try (match goal with Hp : proc ?x = _ |- _ => rewrite Hp end; cbn [started]; lia).
+  all: destruct (started (proc t)); try lia.
+  all: cbn [after_start] in Hstarted; specialize (Hstarted eq_refl); discriminate.
+Qed.
+
+Definition PoolInv (cfg : config) (s : gstate) : Prop :=
+  exists v, slots s = [(0, v)] /\ v + N.of_nat (cnt holder (thr s)) <= c_pool cfg.
+
+Lemma cnt_upd_N (f : thread -> bool) m k t t0 :
+  NoDup (map fst m) -> get N.eqb m k = Some t0 ->
+  N.of_nat (cnt f (upd m k t)) + (if f t0 then 1 else 0) = N.of_nat (cnt f m) + (if f t then 1 else 0).
+Proof.
+  intros Hnd Hg. pose proof (cnt_upd f m k t t0 Hnd Hg) as E.
+  destruct (f t0), (f t); lia.
+Qed.
+
+Lemma cnt_le {V} (f g : V -> bool) (m : list (N * V)) :
+  (forall k v, In (k, v) m -> f v = true -> g v = true) -> (cnt f m <= cnt g m)%nat.
+Proof.
+  unfold cnt. induction m as [|[k v] r IH]; cbn [filter snd length]; auto.
+  intros H. assert (IH' := IH (fun k0 v0 Hin => H k0 v0 (or_intror Hin))).
+  destruct (f v) eqn:Ef.
+  - rewrite (H k v (or_introl eq_refl) Ef). cbn [length]. lia.
+  - destruct (g v); cbn [length]; lia.
+Qed.
+
+Lemma cnt_init f l : f init_thread = false -> cnt f (map (fun i : N => (i, init_thread)) l) = 0%nat.
+Proof.
+  intros H. unfold cnt. induction l as [|a r IH]; cbn [map filter snd]; auto. rewrite H. exact IH.
+Qed.
+
+Lemma PoolInv_init cfg s0 : fix_shared_pool cfg = true -> init cfg = Accepted s0 -> PoolInv cfg s0.
+Proof.
+  intros Hsh. unfold init. destruct (negb (wf_cfg cfg)); [discriminate|].
+  destruct (negb (forallb _ _)); [discriminate|]. destruct (negb (acyclicb cfg)); [discriminate|].
+  intros H; inversion H; subst; clear H. exists (c_pool cfg). unfold init_state; cbn [slots thr].
+  rewrite Hsh. split; auto. rewrite cnt_init by reflexivity. lia.
+Qed.
+
+Lemma PoolInv_step cfg s x s' b :
+  fix_shared_pool cfg = true -> fix_atomic_acquire cfg = true ->
+  Inv cfg s -> PoolInv cfg s -> step_ex cfg s x = Some (s', b) -> PoolInv cfg s'.
+Proof.
+  intros Hsh Hat HI [v [Hsl Hle]] Hs.
+  destruct (step_ex_cases _ _ _ _ _ Hs) as [t [t' [Ht [Hthr Hc]]]].
+  assert (Hti : tinv0 t) by (eapply inv_thr; eauto).
+  assert (Hnd : NoDup (map fst (thr s))) by (rewrite (inv_keys HI); apply (inv_nodup HI)).
+  assert (Hcnt := cnt_upd_N holder (thr s) (tid_step x) t' t Hnd Ht). fold (hv t) in Hcnt. fold (hv t') in Hcnt.
+  assert (Key : exists v', slots s' = [(0, v')] /\ v' + hv t' <= v + hv t).
+  { destruct Hc; subst.
+    - exists v. split; [congruence|]. unfold hv, holder. cbn [loc status proc mk_thread]. rewrite H.
+      destruct (is_terminal (loc t)); cbn [is_TRun orb]; destruct (is_Running (loc t)), (started (proc t)); cbn [andb orb]; lia.
+    - eapply handler_pool_next; eauto.
+    - exists v. split; [congruence|]. unfold hv, holder. cbn [loc status proc mk_thread]. rewrite H0. lia.
+    - exists v. split; [congruence|]. unfold hv, holder. cbn [loc status proc mk_thread]. rewrite H0. cbn [is_TRun orb]. lia.
+    - eapply handler_pool_die; eauto. apply (ti_started Hti); auto.
+    - exists v. split; [congruence|]. unfold hv, holder. cbn [loc status proc mk_thread]. lia.
+    - exists v. split; [congruence|]. unfold hv, holder. cbn [loc status proc set_proc].
+      assert (E1 : started (proc t) = true) by (destruct (proc t); try discriminate; reflexivity).
+      assert (E2 : started p' = true) by (destruct H2 as [H2|[c H2]]; [destruct p'; try discriminate; reflexivity|subst; reflexivity]).
+      rewrite E1, E2. lia.
+    - exists v. split; [congruence|]. unfold hv, holder. cbn [loc status proc set_status]. rewrite H.
+      cbn [is_TRun orb]. destruct (is_Running (loc t)), (started (proc t)); cbn [andb orb]; lia. }
+  destruct Key as [v' [Hsl' Hle']]. exists v'. split; auto. rewrite Hthr. lia.
+Qed.
+
+Lemma PoolInv_run_sched cfg sch : forall s,
+  fix_shared_pool cfg = true -> fix_atomic_acquire cfg = true ->
+  Inv cfg s -> PoolInv cfg s -> PoolInv cfg (run_sched cfg s sch).
+Proof.
+  induction sch as [|x r IH]; cbn [run_sched]; auto.
+  intros s Hsh Hat HI HP. unfold step_fn. destruct (step_ex cfg s x) as [[s1 b]|] eqn:E; auto.
+  apply IH; auto.
+  - eapply Inv_step; eauto.
+  - eapply PoolInv_step; eauto.
+Qed.
+
+Lemma running_le_holders cfg s : Inv cfg s -> (count_running s <= cnt holder (thr s))%nat.
+Proof.
+  intros HI. unfold count_running. change (length (filter (fun kv : step * thread => is_running (proc (snd kv))) (thr s)))
+    with (cnt (fun t => is_running (proc t)) (thr s)).
+  apply cnt_le. intros k t Hin Hr.
+  assert (Hnd : NoDup (map fst (thr s))) by (rewrite (inv_keys HI); apply (inv_nodup HI)).
+  pose proof (In_pair_get _ _ _ Hnd Hin) as Hg.
+  pose proof (inv_thr HI _ _ Hg) as Hti.
+  unfold holder, is_Running. rewrite (ti_run Hti Hr). cbn [andb].
+  destruct (proc t); try discriminate. cbn [started]. apply orb_true_r.
+Qed.
+
+Lemma pool_respected_lemma cfg sch s :
+  fix_shared_pool cfg = true -> fix_atomic_acquire cfg = true ->
+  run cfg sch = Accepted s -> N.of_nat (count_running s) <= c_pool cfg.
+Proof.
+  intros Hsh Hat Hrun. pose proof (Inv_run _ _ _ Hrun) as HI.
+  assert (HP : PoolInv cfg s).
+  { unfold run in Hrun. destruct (init cfg) as [r|s0] eqn:E; [discriminate|]. inversion Hrun; subst.
+    apply PoolInv_run_sched; auto. apply Inv_init; auto. apply PoolInv_init; auto. }
+  destruct HP as [v [_ Hle]]. pose proof (running_le_holders _ _ HI). lia.
+Qed.
+
+Lemma pool1_exclusive_lemma cfg sch s i j ti tj :
+  fix_shared_pool cfg = true -> fix_atomic_acquire cfg = true -> c_pool cfg = 1 ->
+  run cfg sch = Accepted s -> tget (thr s) i = Some ti -> tget (thr s) j = Some tj ->
+  is_running (proc ti) = true -> is_running (proc tj) = true -> i = j.
+Proof.
+  intros Hsh Hat Hp Hrun Hi Hj Hri Hrj.
+  pose proof (pool_respected_lemma _ _ _ Hsh Hat Hrun) as Hle. rewrite Hp in Hle.
+  destruct (N.eq_dec i j) as [|Hne]; auto. exfalso.
+  (* two distinct running entries make the count at least 2 *)
+  assert (H2 : (2 <= count_running s)%nat).
+  { unfold count_running. unfold tget in Hi, Hj. revert Hi Hj. generalize (thr s) as m.
+    induction m as [|[k t] r IH]; cbn [get]; [discriminate|].
+    destruct (N.eqb_spec k i) as [Ei|Ei]; destruct (N.eqb_spec k j) as [Ej|Ej]; intros H1 H2'.
+    - congruence.
+    - inversion H1; subst t. cbn [filter snd]. rewrite Hri. cbn [length].
+      assert ((1 <= length (filter (fun kv : step * thread => is_running (proc (snd kv))) r))%nat).
+      { clear IH H1. induction r as [|[k2 t2] r2 IH2]; cbn [get] in H2'; [discriminate|].
+        destruct (N.eqb k2 j).
+        - inversion H2'; subst. cbn [filter snd]. rewrite Hrj. cbn [length]. lia.
+        - cbn [filter snd]. destruct (is_running (proc t2)); cbn [length]; [lia|]. auto. }
+      lia.
+    - inversion H2'; subst t. cbn [filter snd]. rewrite Hrj. cbn [length].
+      assert ((1 <= length (filter (fun kv : step * thread => is_running (proc (snd kv))) r))%nat).
+      { clear IH H2'. induction r as [|[k2 t2] r2 IH2]; cbn [get] in H1; [discriminate|].
+        destruct (N.eqb k2 i).
+        - inversion H1; subst. cbn [filter snd]. rewrite Hri. cbn [length]. lia.
+        - cbn [filter snd]. destruct (is_running (proc t2)); cbn [length]; [lia|]. auto. }
+      lia.
+    - specialize (IH H1 H2'). cbn [filter snd]. destruct (is_running (proc t)); cbn [length]; lia. }
+  lia.
+Qed.
+
+(* the full statement of C10 over the SEMANTIC reading relation, outside the known class *)
+Lemma C10_semantic_lemma cfg sch s r p d o tr :
+  Known_glob_on_absent_output cfg = false ->
+  run cfg sch = Accepted s ->
+  In r (c_steps cfg) -> In p (c_steps cfg) -> In d (s_deps r) -> In o (s_outs p) -> sem_reads d o = true ->
+  tget (thr s) (s_id r) = Some tr -> started (proc tr) = true ->
+  exists tp, tget (thr s) (s_id p) = Some tp /\ is_running (proc tp) = false /\
+             (is_done (loc tp) = true \/ (s_when r = Always /\ is_terminal (loc tp) = true)).
+Proof.
+  intros Hk Hrun Hr Hp Hd Ho Hs Htr Hst.
+  pose proof (Inv_run _ _ _ Hrun) as HI.
+  pose proof (edges_cover_all_reads_lemma _ _ _ _ _ Hk Hr Hp Hd Ho Hs) as He.
+  destruct (edges_find _ _ _ (inv_nodup HI) He) as [sc [Hf Hj]].
+  assert (E : find_step (c_steps cfg) (s_id r) = Some r) by (apply find_step_In; auto; apply (inv_nodup HI)).
+  rewrite E in Hf. inversion Hf; subst sc.
+  eapply started_after_dependencies_lemma; eauto.
+Qed.
+
+Lemma verdicts_are_final_lemma cfg sch s k sch' :
+  run cfg sch = Accepted s -> is_terminal (loc_of s k) = true ->
+  loc_of (run_sched cfg s sch') k = loc_of s k.
+Proof. intros Hrun Ht. apply run_sched_loc_stable; auto. eapply Inv_run; eauto. Qed.
